@@ -16,6 +16,11 @@ RULE = ("vec: Vector.__setitem__ on columns of 13 content types (int, float, boo
         "either case, negative and out-of-range column indices, scalar / list / tuple / nested / Table / generator / raising "
         "values, faults placed in the first addressed column (later-column faults only in family table.partial). rename: all "
         "old/new lists to length 2 over present, duplicate, missing and None names, unequal lengths, raising name lists. "
+        "states (gen_states): table assignment addressed by name on tables that reached their present column names only after being "
+        "built and used (dir / getitem / setitem) under other names - through live column views, rename_column(s), including permuted "
+        "names - with present, former and case-variant names as keys; long columns (40, 300; thorough to 1001) written through "
+        "whole-column keys with a fault in the last value only; zero-row, 5-row and 40-row tables; (named) bool / int Vectors that "
+        "are not own columns as table row keys, incl. all-False and over-long masks. "
         "(list, schema, name, fingerprint) are captured before and after each attempt. non-trivial = the attempt changed "
         "the object, or failed for a reason other than a wrong key type")
 ASSUMPTIONS = [
@@ -32,6 +37,11 @@ D, DT = datetime.date, datetime.datetime
 LPOOL = {k: list(v) for k, v in POOL.items()}
 LPOOL[2] = [7, 0, -3, 10 ** 20, 10 ** 400]
 LPOOL[3] = [1.5, 0.0, -2.25, float("inf"), -0.0]
+# scalars that are iterable and have a length (appended, so that the existing (code, variant) pairs keep their meaning): written as
+# ONE value whatever their length; 16 = bytearray
+LPOOL[5] = LPOOL[5] + ["ab"]
+LPOOL[6] = LPOOL[6] + [b"ab"]
+LPOOL[16] = [bytearray(b"ab"), bytearray(b"a"), bytearray()]
 
 
 def val(cv):
@@ -212,7 +222,7 @@ def build_key(ks, n):
     if k == "maskVec":
         if not ks["bs"]:
             return Vector([], dtype=DataType(bool)), {"k": "maskVec", "bs": []}
-        return Vector(list(ks["bs"])), {"k": "maskVec", "bs": ks["bs"]}
+        return Vector(list(ks["bs"]), name=ks.get("name")), {"k": "maskVec", "bs": ks["bs"]}
     if k == "idxList":
         py = tuple(ks["is"]) if ks.get("tuple") else list(ks["is"])
         if not ks["is"] and not ks.get("tuple"):
@@ -221,7 +231,7 @@ def build_key(ks, n):
     if k == "idxVec":
         if not ks["is"]:
             return Vector([], dtype=DataType(int)), {"k": "idxVec", "is": []}
-        return Vector(list(ks["is"])), {"k": "idxVec", "is": ks["is"]}
+        return Vector(list(ks["is"]), name=ks.get("name")), {"k": "idxVec", "is": ks["is"]}
     if k == "bad":
         w = ks["what"]
         py = {"str": "a", "float": 1.0, "none": None, "liststr": ["a"], "listmixed": [0, "a"], "listnone": [0, None],
@@ -669,6 +679,108 @@ def table_values(rng, lay, tg, rk, m, full, nr):
     return res
 
 
+# ---- states and sizes the streams above never produce ------------------------------------------
+
+def gen_states(rng, tier):
+    """(1) table assignment addressed BY NAME on a table that got its present column names only after it had been built (and used)
+    under other names - renamed through live column views, rename_column(s) - so that whatever the table remembers about its names
+    is stale: the present names address their columns, the former names address nothing; (2) long columns written through
+    whole-column keys (full slice, explicit bounds, reversed, all-True / alternating masks, all positions) with a fault in the LAST
+    value only; (3) zero-row tables and tables of 5 / 40 rows; row keys that are (named) bool / int Vectors, not own columns"""
+    full = tier == "thorough"
+    # (1)
+    for lay in (["int", "str"], ["int", "int", "str"], ["float", "int"], ["str", "int?"]):
+        nc = len(lay)
+        cols = [{"name": TNAMES[j], "vals": COLTYPES[ct][:2], "ct": ct} for j, ct in enumerate(lay)]
+        for pre_names in (["p", "q", "r"][:nc], TNAMES[:nc][::-1], TNAMES[1:nc] + TNAMES[:1], ["A", "b", "zz"][:nc]):
+            for warm in (None, "dir", "getitem", "setitem"):
+                pre = {"names": pre_names, "warm": warm, "route": rng.choice(["setter", "setter", "rename", "rename_columns", "rename_column"])}
+                stale = [x for x in pre_names if x.lower() not in TNAMES[:nc]][:1]
+                css = ([{"c": "name", "s": s_} for s_ in TNAMES[:nc] + ["A"] + stale]
+                       + [{"c": "list", "items": [TNAMES[nc - 1], TNAMES[0]], "tuple": False}, {"c": "list", "items": ["a"] + (stale or ["zz"]), "tuple": True},
+                          {"c": "none"}, {"c": "int", "i": 0}])
+                for cs in css:
+                    for rk in ({"k": "int", "i": 0}, {"k": "maskList", "bs": [False, True]} if warm == "dir" else {"k": "slice", "a": None, "b": None, "c": None}):
+                        for x in ([2, 2], [5, 1], [0, 0]):
+                            yield {"fam": "table.renamed", "cols": cols, "nr": 2, "pre": pre, "key": {"row": rk, "col": cs},
+                                   "value": {"v": "scalar", "x": x}}
+                        if cs["c"] == "list" and rk["k"] != "int":
+                            m = target_count(rk, 2)
+                            yield {"fam": "table.renamed", "cols": cols, "nr": 2, "pre": pre, "key": {"row": rk, "col": cs},
+                                   "value": {"v": "list", "items": [{"l": [VAL2[COLTYPES[lay[nc - 1]][0][0]]] * m, "t": "list"}, {"l": [[2, 2]] * m, "t": "list"}]}}
+    # (1b) scalars that are iterable (multi-character str, bytes, bytearray) whose length equals the number of addressed positions, or
+    #      not: written as one value (or refused by the dtype), never spread over the positions
+    for col in ({"vals": COLTYPES["obj"][:2], "name": "x"}, {"vals": COLTYPES["int"][:2], "name": None, "dtype": "object"},
+                {"vals": COLTYPES["str"][:2], "name": "x"}, {"vals": COLTYPES["int"][:2], "name": "x"}, {"vals": COLTYPES["obj"][:1], "name": None, "dtype": "object"}):
+        n = len(col["vals"])
+        for ks in ([{"k": "int", "i": 0}, {"k": "slice", "a": None, "b": None, "c": None}, {"k": "slice", "a": 0, "b": 1, "c": None},
+                    {"k": "maskList", "bs": [True] * n}, {"k": "maskVec", "bs": [True] * n}, {"k": "idxList", "is": list(range(n))},
+                    {"k": "idxVec", "is": list(range(n))}, {"k": "slice", "a": 0, "b": 0, "c": None}]):
+            for x in ([16, 0], [16, 1], [16, 2], [5, 3], [6, 2], [6, 0], [5, 0]):
+                yield {"fam": "vec.iterscalar", "col": col, "key": ks, "value": {"v": "scalar", "x": x}}
+                yield {"fam": "vec.iterscalar", "col": col, "key": ks, "value": {"v": "list", "xs": [x] * target_count(ks, n)}}
+    for lay in (["obj", "obj"], ["str", "obj"]):
+        cols = [{"name": TNAMES[j], "vals": COLTYPES[ct][:2], "ct": ct} for j, ct in enumerate(lay)]
+        for rk in ({"k": "int", "i": 0}, {"k": "slice", "a": None, "b": None, "c": None}):
+            for cs in ({"c": "none"}, {"c": "name", "s": "b"}, {"c": "slice", "a": None, "b": None, "c3": None}):
+                for x in ([16, 0], [16, 1], [5, 3], [6, 2]):
+                    yield {"fam": "table.iterscalar", "cols": cols, "nr": 2, "key": {"row": rk, "col": cs}, "value": {"v": "scalar", "x": x}}
+    # (2)
+    for ct in ("int", "str", "float", "int?", "date"):
+        base = VAL2.get(COLTYPES[ct][0][0], COLTYPES[ct][0])
+        for n in ((40, 300) if not full else (33, 64, 65, 130, 300, 1001)):
+            col = {"vals": [COLTYPES[ct][i % 4] for i in range(n)], "name": "x"}
+            keys = [{"k": "slice", "a": None, "b": None, "c": None}, {"k": "slice", "a": 0, "b": n, "c": None}, {"k": "slice", "a": None, "b": None, "c": -1},
+                    {"k": "slice", "a": None, "b": None, "c": 2}, {"k": "slice", "a": 1, "b": 10 ** 9, "c": 1}, {"k": "maskList", "bs": [True] * n},
+                    {"k": "maskVec", "bs": [i % 2 == 0 for i in range(n)], "name": "m"}, {"k": "idxList", "is": list(range(n))},
+                    {"k": "idxVec", "is": list(range(-1, -n - 1, -1)), "name": "i"}, {"k": "idxList", "is": [n - 1, 0, n - 1], "tuple": True}]
+            for ks in keys:
+                m = target_count(ks, n)
+                lasts = [base, [0, 0], [5, 0] if ct != "str" else [2, 0], [3, 0], [8, 0], [2, 4]]
+                for last in lasts:
+                    for form in ("list", "vector") if last in (base, [0, 0], [3, 0]) else ("list",):
+                        yield {"fam": "vec.long", "col": col, "key": ks, "value": {"v": form, "xs": [base] * (m - 1) + [last]}}
+                yield {"fam": "vec.long", "col": col, "key": ks, "value": {"v": "list", "xs": [base] * (m + 1)}}
+                yield {"fam": "vec.long", "col": col, "key": ks, "value": {"v": "raiser", "xs": [base] * m, "len": "ok", "ra": m - 1}}
+                yield {"fam": "vec.long", "col": col, "key": ks, "value": {"v": "gen", "xs": [base] * m}}
+                for x in ([0, 0], [3, 0], [5, 0], base):
+                    yield {"fam": "vec.long", "col": col, "key": ks, "value": {"v": "scalar", "x": x}}
+    # (3)
+    for lay in (["int", "str"], ["int"], ["float", "int", "str"]):
+        nc = len(lay)
+        for nr in (0, 5, 40):
+            cols = [{"name": TNAMES[j], "vals": [COLTYPES[ct][i % 4] for i in range(nr)], "ct": ct} for j, ct in enumerate(lay)]
+            rks = [{"k": "int", "i": 0}, {"k": "int", "i": -1}, {"k": "slice", "a": None, "b": None, "c": None}, {"k": "slice", "a": 1, "b": None, "c": 2},
+                   {"k": "maskList", "bs": [i % 3 == 0 for i in range(nr)]}, {"k": "maskVec", "bs": [i % 2 == 1 for i in range(nr)], "name": "a"},
+                   {"k": "maskVec", "bs": [True] * (nr + 1)}, {"k": "maskVec", "bs": [False] * nr, "name": "b"},
+                   {"k": "idxVec", "is": [nr - 1, 0] if nr else [], "name": "k"},
+                   {"k": "idxList", "is": [0, nr - 1, 0] if nr else [0]}]
+            css = [{"c": "none"}, {"c": "name", "s": "a"}, {"c": "name", "s": "zz"}, {"c": "int", "i": nc - 1}, {"c": "int", "i": nc},
+                   {"c": "slice", "a": None, "b": None, "c3": None}, {"c": "list", "items": TNAMES[:nc][::-1], "tuple": False}]
+            for rk in rks:
+                m = target_count(rk, nr)
+                for cs in css:
+                    tg = resolve_guess(cs, nc)
+                    for x in ([2, 2], [5, 1], [0, 0], [3, 0]):
+                        yield {"fam": "table.shape", "cols": cols, "nr": nr, "key": {"row": rk, "col": cs}, "value": {"v": "scalar", "x": x}}
+                    if rk["k"] == "int":
+                        good = [{"x": VAL2.get(COLTYPES[lay[j]][0][0])} for j in tg]
+                        yield {"fam": "table.shape", "cols": cols, "nr": nr, "key": {"row": rk, "col": cs}, "value": {"v": "list", "items": good}}
+                        yield {"fam": "table.shape", "cols": cols, "nr": nr, "key": {"row": rk, "col": cs}, "value": {"v": "tuple", "items": good[:-1] + [{"x": [13, 0]}]}}
+                    else:
+                        for bad in (None, "type", "len"):
+                            items = []
+                            for i_, j in enumerate(tg):
+                                xs = [VAL2.get(COLTYPES[lay[j]][0][0])] * m
+                                if i_ == len(tg) - 1 and bad == "type" and xs:
+                                    xs[-1] = [13, 0]
+                                if i_ == len(tg) - 1 and bad == "len":
+                                    xs = xs + xs[:1] if xs else [[2, 2]]
+                                items.append({"l": xs, "t": "list" if i_ % 2 == 0 else "tuple"})
+                            if items:
+                                yield {"fam": "table.shape", "cols": cols, "nr": nr, "key": {"row": rk, "col": cs}, "value": {"v": "list", "items": items}}
+
+
 # ---- rename ---------------------------------------------------------------------------------
 
 def gen_rename(rng, tier):
@@ -695,9 +807,9 @@ def gen_rename(rng, tier):
 def generate(rng, tier):
     _partial_budget[0] = 0
     # interleave the three streams so that a budget stop still leaves every family sampled
-    gens = [gen_rename(rng, tier), gen_table(rng, tier), gen_vec(rng, tier)]
-    weights = [1, 3, 8]
-    alive = [True, True, True]
+    gens = [gen_rename(rng, tier), gen_table(rng, tier), gen_vec(rng, tier), gen_states(rng, tier)]
+    weights = [1, 3, 8, 2]
+    alive = [True, True, True, True]
     while any(alive):
         for gi, g in enumerate(gens):
             if not alive[gi]:
@@ -744,13 +856,50 @@ def exec_vec(spec):
             "impl": {"err": err, "s1": s1}}
 
 
-def build_table(cols):
+def build_table(cols, pre=None):
+    """`pre` = {"names", "warm", "route"}: the table is built under other column names, optionally used (so that whatever it derives
+    from its names exists), and only then brought to its present names - through live column views or rename_column(s)"""
     from serif import Table, Vector
+    import warnings
     vecs = []
-    for c in cols:
-        kw = {"name": c["name"]} if c.get("name") is not None else {}
+    for j, c in enumerate(cols):
+        nm = pre["names"][j] if pre else c.get("name")
+        kw = {"name": nm} if nm is not None else {}
         vecs.append(Vector([val(x) for x in c["vals"]], **kw))
-    return Table(vecs)
+    t = Table(vecs)
+    if not pre or not isinstance(t, Table):
+        return t
+    with warnings.catch_warnings():
+        warnings.simplefilter("ignore")
+        warm, first = pre.get("warm"), pre["names"][0]
+        if warm == "dir":
+            dir(t)
+        elif warm == "getitem":
+            t[first]
+            t[(first,)]
+        elif warm == "setitem" and len(t):
+            t[0, first] = t.cols()[0][0]
+        route = pre.get("route", "setter")
+        finals = [c["name"] for c in cols]
+        if route == "rename_columns":
+            # through placeholders, so that a permutation of the same names is possible
+            tmp = ["tmp%d_" % j for j in range(len(cols))]
+            t.rename_columns(list(pre["names"]), tmp)
+            t.rename_columns(tmp, finals)
+        else:
+            views = list(t.cols())
+            if route == "rename_column":
+                for j, old in enumerate(pre["names"]):
+                    t.rename_column(old, "tmp%d_" % j)
+                for j, new in enumerate(finals):
+                    t.rename_column("tmp%d_" % j, new)
+            else:
+                for v, new in zip(views, finals):
+                    if route == "rename":
+                        v.rename(new)
+                    else:
+                        v.name = new
+    return t
 
 
 def tstate(ctx, t):
@@ -774,9 +923,11 @@ def wire_item(ctx, obj):
 def exec_table(spec):
     from serif import Table, Vector
     ctx = Ctx()
-    t = build_table(spec["cols"])
+    t = build_table(spec["cols"], spec.get("pre"))
     if not isinstance(t, Table):
         return {"skip": "not a table"}
+    if t.column_names() != [c["name"] for c in spec["cols"]]:
+        return {"skip": "the table could not be brought to its names"}
     nr = len(t)
     ks = spec["key"]
     if "bad" in ks:
@@ -1054,7 +1205,15 @@ def snippet(spec):
             value = {"list": f"[{inner}]", "tuple": f"({inner}{',' if len(tv['items']) == 1 else ''})",
                      "gen": f"(x for x in [{inner}])", "table": f"Table([{inner}])",
                      "raiser": f"Raiser([{inner}], raise_at={tv.get('ra')})  # __len__ + __iter__ that raises"}[tv["v"]]
-        return (head + f"t = Table({cols!r})\n"
+        mk = f"t = Table({cols!r})\n"
+        pre = spec.get("pre")
+        if pre:
+            # built (and used) under other names, then renamed: see build_table for the exact route
+            old = {o: [val(x) for x in c["vals"]] for o, c in zip(pre["names"], spec["cols"])}
+            mk = (f"t = Table({old!r})\n" + {"dir": "dir(t)\n", "getitem": f"t[{pre['names'][0]!r}]\n",
+                                              "setitem": f"t[0, {pre['names'][0]!r}] = t.cols()[0][0]\n"}.get(pre.get("warm"), "")
+                  + f"for v, new in zip(list(t.cols()), {[c['name'] for c in spec['cols']]!r}): v.name = new   # route: {pre.get('route')}\n")
+        return (head + mk +
                 "before = [(list(c), c.schema()) for c in t.cols()]\n"
                 f"try:\n    t[{key}] = {value}\nexcept Exception as e:\n    print('raised', type(e).__name__)\n"
                 "print(before, '->', [(list(c), c.schema()) for c in t.cols()])")
